@@ -61,6 +61,22 @@ DIRECTED = {
     "callback_returns_future_simple": S(
         {"cls": "SimpleTaskPool", "size": 1, "simple": {"ecb": "sobj", "ccb": "sfut"}},
         op(o="spawn", num=2), IDLE, op(o="stop", n=1), IDLE, op(o="hstart", kind="gac"), DRAIN),
+    # arguments that do not fit the function: accepted, every invocation fails at the call, others are unaffected (C04/C12);
+    # a functools.partial of a coroutine function under an explicit group name; callbacks of unusual make
+    "apply_mismatch_and_partial": S(
+        {"cls": "TaskPool", "size": 2, "reqs": [{"kind": "apply", "num": 2, "mismatch": True},
+                                                 {"kind": "apply", "num": 2, "gname": "gp", "partial": True, "ecb": "swrap", "ccb": "amark"},
+                                                 {"kind": "map", "num": 2, "nc": 1, "gname": "gm", "partial": True, "ecb": "amark"}]},
+        op(o="spawn", t=0), op(o="spawn", t=1), IDLE, op(o="release", id=0, out="ret"), op(o="cancel", ids=[1]), IDLE,
+        op(o="spawn", t=2), IDLE, op(o="get_ids", names=[0, 1, 2]), DRAIN, {"c": "probe", "k": 2}),
+    # KF-M: func without __name__ (functools.partial) whose call fails for one invocation/element: the others still run
+    "kf_m_partial_call_fails": S(
+        {"cls": "TaskPool", "size": 2, "reqs": [{"kind": "map", "num": 3, "nc": 1, "gname": "gm", "partial": True, "bad": [1]},
+                                                 {"kind": "apply", "num": 3, "gname": "ga", "partial": True, "bad": [0]}]},
+        op(o="spawn", t=0), op(o="spawn", t=1), IDLE, DRAIN, op(o="hstart", kind="flush"), IDLE, {"c": "probe", "k": 2}),
+    "kf_m_partial_call_fails_simple": S(
+        {"cls": "SimpleTaskPool", "size": 2, "simple": {"partial": True, "bad": [1]}},
+        op(o="spawn", num=3), IDLE, DRAIN, op(o="hstart", kind="gac"), DRAIN),
     # stop() on a SimpleTaskPool whose running ids have gaps, negative and oversized arguments (C14)
     "stop_with_gaps": S(
         {"cls": "SimpleTaskPool", "size": -1, "simple": {"ccb": "async"}},
